@@ -50,7 +50,7 @@ func (h *Handler) remove(id string) {
 	h.trackedM.Lock()
 	defer h.trackedM.Unlock()
 	if iter, ok := h.tracked[id]; ok {
-		close(iter.msgC)
+		close(iter.done)
 		delete(h.tracked, id)
 	}
 }
@@ -77,9 +77,12 @@ func (h *Handler) HandleMessage(msg stanza.Message, r xmlstream.TokenReadEncoder
 			break
 		}
 	}
+	// Do not hold the lock while waiting for the consumer below: Close and the
+	// end of the query need it to stop tracking, and they are what ends the wait
+	// when the consumer has stopped calling Next.
 	h.trackedM.Lock()
-	defer h.trackedM.Unlock()
 	iter, ok := h.tracked[queryID]
+	h.trackedM.Unlock()
 	if !ok {
 		if h.inner != nil {
 			return h.inner.HandleMessage(msg, struct {
@@ -93,7 +96,11 @@ func (h *Handler) HandleMessage(msg stanza.Message, r xmlstream.TokenReadEncoder
 		return nil
 	}
 
-	iter.msgC <- xmlstream.MultiReader(xmlstream.Token(msgTok), xmlstream.Token(tok), r)
+	select {
+	case iter.msgC <- xmlstream.MultiReader(xmlstream.Token(msgTok), xmlstream.Token(tok), r):
+	case <-iter.done:
+		// The iterator was closed while this result was waiting for it.
+	}
 	return nil
 }
 
@@ -115,14 +122,18 @@ func (h *Handler) FetchIQ(ctx context.Context, filter Query, iq stanza.IQ, s *xm
 		filter.ID = attr.RandomID()
 	}
 	if _, ok := h.tracked[filter.ID]; ok {
+		done := make(chan struct{})
+		close(done)
 		return &Iter{
-			err: fmt.Errorf("history query %s is already being tracked", filter.ID),
+			err:  fmt.Errorf("history query %s is already being tracked", filter.ID),
+			done: done,
 		}
 	}
 	iq.Type = stanza.SetIQ
 	msgC := make(chan xml.TokenReader)
 	iter := &Iter{
 		msgC: msgC,
+		done: make(chan struct{}),
 		h:    h,
 		id:   filter.ID,
 	}
